@@ -111,6 +111,46 @@ BLOCKS = {
             ],
         },
     },
+    "_rwg_step_block": {
+        # one (support element, local edge) step of the first loop of _compute_rwg0_space_data: which edges get a dof (exactly two supported elements on the edge,
+        # or exactly one and boundary dofs included), the dof counter, and the extension of the support across a segment edge (C09 / C10)
+        "function": ("bempp_cl.api.space.maxwell_spaces", "_compute_rwg0_space_data"),
+        "loop": ("_np.flatnonzero(support)", 0),
+        "inner": [("range(3)", 0)],
+        "params": ["element", "local_index", "element_edges", "edge_dofs", "edge_neighbors", "edge_neighbors_ptr", "support", "dof_count", "has_dof",
+                   "include_boundary_dofs", "truncate_at_segment_edge"],
+        "returns": ["support", "edge_dofs", "dof_count", "has_dof"],
+        "contract": {
+            "opaque_ok": True,
+            "args": {"element": ("int",), "local_index": ("int",), "element_edges": ("arr2", (3, "N")), "edge_dofs": ("arr1",), "edge_neighbors": ("arr1",),
+                     "edge_neighbors_ptr": ("arr1",), "support": ("arr1",), "dof_count": ("int",), "has_dof": ("int",), "include_boundary_dofs": ("int",),
+                     "truncate_at_segment_edge": ("int",)},
+            "requires": ["0 <= element and element < N and 0 <= local_index and local_index < 3", "len(support) == N", "dof_count >= 0",
+                         "forall(0, 3, lambda j: 0 <= element_edges[j, element] and element_edges[j, element] < len(edge_dofs))",
+                         "len(edge_neighbors_ptr) == len(edge_dofs) + 1",
+                         "forall(0, len(edge_dofs), lambda x: 0 <= edge_neighbors_ptr[x] and edge_neighbors_ptr[x] <= edge_neighbors_ptr[x + 1] and edge_neighbors_ptr[x + 1] <= len(edge_neighbors))",
+                         "forall(0, len(edge_neighbors), lambda i: 0 <= edge_neighbors[i] and edge_neighbors[i] < N)",
+                         "forall(0, len(edge_dofs), lambda x: edge_dofs[x] >= -1 and edge_dofs[x] < dof_count)"],
+            "loops": {1: {"invariant": [
+                "forall(edge_neighbors_ptr[edge_index], _ka, lambda i: support[edge_neighbors[i]] != 0)",
+                "forall(0, N, lambda e: support[e] == old_support[e] or (support[e] != 0 and exists(edge_neighbors_ptr[edge_index], _ka, lambda i: edge_neighbors[i] == e)))",
+            ]}},
+            "result": ("tuple", 4),
+            "ensures": [
+                # an edge that already has a dof: nothing changes, the element has a dof
+                "implies(old_edge_dofs[element_edges[local_index, element]] != -1, result_1[element_edges[local_index, element]] == old_edge_dofs[element_edges[local_index, element]] and result_2 == old_dof_count and result_3 != 0)",
+                # a new dof exactly for an edge with two supported elements, or with one when boundary dofs are included; it gets the next number
+                "implies((old_edge_dofs[element_edges[local_index, element]] == -1 and ((exists(edge_neighbors_ptr[element_edges[local_index, element]], edge_neighbors_ptr[element_edges[local_index, element] + 1], lambda a: old_support[edge_neighbors[a]] != 0 and exists(a + 1, edge_neighbors_ptr[element_edges[local_index, element] + 1], lambda b: old_support[edge_neighbors[b]] != 0)) and not exists(edge_neighbors_ptr[element_edges[local_index, element]], edge_neighbors_ptr[element_edges[local_index, element] + 1], lambda a: old_support[edge_neighbors[a]] != 0 and exists(a + 1, edge_neighbors_ptr[element_edges[local_index, element] + 1], lambda b: old_support[edge_neighbors[b]] != 0 and exists(b + 1, edge_neighbors_ptr[element_edges[local_index, element] + 1], lambda c: old_support[edge_neighbors[c]] != 0)))) or ((exists(edge_neighbors_ptr[element_edges[local_index, element]], edge_neighbors_ptr[element_edges[local_index, element] + 1], lambda a: old_support[edge_neighbors[a]] != 0) and not exists(edge_neighbors_ptr[element_edges[local_index, element]], edge_neighbors_ptr[element_edges[local_index, element] + 1], lambda a: old_support[edge_neighbors[a]] != 0 and exists(a + 1, edge_neighbors_ptr[element_edges[local_index, element] + 1], lambda b: old_support[edge_neighbors[b]] != 0))) and include_boundary_dofs != 0))), result_1[element_edges[local_index, element]] == old_dof_count and result_2 == old_dof_count + 1 and result_3 != 0)",
+                "implies(old_edge_dofs[element_edges[local_index, element]] == -1 and not (old_edge_dofs[element_edges[local_index, element]] == -1 and ((exists(edge_neighbors_ptr[element_edges[local_index, element]], edge_neighbors_ptr[element_edges[local_index, element] + 1], lambda a: old_support[edge_neighbors[a]] != 0 and exists(a + 1, edge_neighbors_ptr[element_edges[local_index, element] + 1], lambda b: old_support[edge_neighbors[b]] != 0)) and not exists(edge_neighbors_ptr[element_edges[local_index, element]], edge_neighbors_ptr[element_edges[local_index, element] + 1], lambda a: old_support[edge_neighbors[a]] != 0 and exists(a + 1, edge_neighbors_ptr[element_edges[local_index, element] + 1], lambda b: old_support[edge_neighbors[b]] != 0 and exists(b + 1, edge_neighbors_ptr[element_edges[local_index, element] + 1], lambda c: old_support[edge_neighbors[c]] != 0)))) or ((exists(edge_neighbors_ptr[element_edges[local_index, element]], edge_neighbors_ptr[element_edges[local_index, element] + 1], lambda a: old_support[edge_neighbors[a]] != 0) and not exists(edge_neighbors_ptr[element_edges[local_index, element]], edge_neighbors_ptr[element_edges[local_index, element] + 1], lambda a: old_support[edge_neighbors[a]] != 0 and exists(a + 1, edge_neighbors_ptr[element_edges[local_index, element] + 1], lambda b: old_support[edge_neighbors[b]] != 0))) and include_boundary_dofs != 0))), result_1[element_edges[local_index, element]] == -1 and result_2 == old_dof_count and result_3 == old_has_dof)",
+                # other edges keep their dof number
+                "forall(0, len(edge_dofs), lambda x: x == element_edges[local_index, element] or result_1[x] == old_edge_dofs[x])",
+                # support extension across the segment edge: exactly when a new boundary dof is created without truncation; then every element on the edge is in the support
+                "implies((old_edge_dofs[element_edges[local_index, element]] == -1 and (exists(edge_neighbors_ptr[element_edges[local_index, element]], edge_neighbors_ptr[element_edges[local_index, element] + 1], lambda a: old_support[edge_neighbors[a]] != 0) and not exists(edge_neighbors_ptr[element_edges[local_index, element]], edge_neighbors_ptr[element_edges[local_index, element] + 1], lambda a: old_support[edge_neighbors[a]] != 0 and exists(a + 1, edge_neighbors_ptr[element_edges[local_index, element] + 1], lambda b: old_support[edge_neighbors[b]] != 0))) and include_boundary_dofs != 0 and truncate_at_segment_edge == 0), forall(edge_neighbors_ptr[element_edges[local_index, element]], edge_neighbors_ptr[element_edges[local_index, element] + 1], lambda i: result_0[edge_neighbors[i]] != 0))",
+                "implies((old_edge_dofs[element_edges[local_index, element]] == -1 and (exists(edge_neighbors_ptr[element_edges[local_index, element]], edge_neighbors_ptr[element_edges[local_index, element] + 1], lambda a: old_support[edge_neighbors[a]] != 0) and not exists(edge_neighbors_ptr[element_edges[local_index, element]], edge_neighbors_ptr[element_edges[local_index, element] + 1], lambda a: old_support[edge_neighbors[a]] != 0 and exists(a + 1, edge_neighbors_ptr[element_edges[local_index, element] + 1], lambda b: old_support[edge_neighbors[b]] != 0))) and include_boundary_dofs != 0 and truncate_at_segment_edge == 0), forall(0, N, lambda e: result_0[e] == old_support[e] or (result_0[e] != 0 and exists(edge_neighbors_ptr[element_edges[local_index, element]], edge_neighbors_ptr[element_edges[local_index, element] + 1], lambda i: edge_neighbors[i] == e))))",
+                "implies(not (old_edge_dofs[element_edges[local_index, element]] == -1 and (exists(edge_neighbors_ptr[element_edges[local_index, element]], edge_neighbors_ptr[element_edges[local_index, element] + 1], lambda a: old_support[edge_neighbors[a]] != 0) and not exists(edge_neighbors_ptr[element_edges[local_index, element]], edge_neighbors_ptr[element_edges[local_index, element] + 1], lambda a: old_support[edge_neighbors[a]] != 0 and exists(a + 1, edge_neighbors_ptr[element_edges[local_index, element] + 1], lambda b: old_support[edge_neighbors[b]] != 0))) and include_boundary_dofs != 0 and truncate_at_segment_edge == 0), forall(0, N, lambda e: result_0[e] == old_support[e]))",
+            ],
+        },
+    },
     "_rwg_final_block": {
         "function": ("bempp_cl.api.space.maxwell_spaces", "_compute_rwg0_space_data"),
         "loop": ("_np.flatnonzero(support)", 1),
